@@ -1,3 +1,7 @@
+def _n(x):
+    return x if isinstance(x, int) else len(x or [])
+
+
 SPEC = {
     "id": "C14",
     "level_text": "Theorems (Coq, all address lists of any length): betterRDNSS returns the minimum under rank = (not stable, class ULA<GUA<link-local<other, address), which is proved to be a strict total order (irreflexive, transitive, total; equal ranks = equal addresses); the wildcard server is the address of an eligible listed entry (IPv6, not deprecated/temporary/tentative) whose rank is minimal among all eligible entries, hence a function of the SET of listed entries (permutation- and multiplicity-invariant); no eligible entry or a listing failure is an error; the option is exactly [wildcard server] ++ static servers with the stanza's lifetime, and an accepted server list is strictly ascending, contains exactly the non-:: servers written, independent of Go's map iteration order. The executable models of RDNSS.current/betterRDNSS/isStable/isEUI64/Apply and parseRDNSS are tied to the real code by differential runs (plugin with injected address lists; config.Parse on generated TOML).",
@@ -8,6 +12,8 @@ SPEC = {
                 {"pkg": "internal/system", "test": "TestVerifC13Addresser", "corr_module": "Corr.C13sys"},
                 # real parallelism: wildcard expansions of several interfaces at the same time
                 {"pkg": "internal/plugin", "test": "TestVerifParallelApply", "arch386": []},
+                # the whole RA: one stanza for a `names` group, every member expands the wildcards over ITS addresses
+                {"pkg": "internal/config", "test": "TestVerifC01", "corr_module": "Corr.C01", "env": {"VERIF_C01_SECTION": "fixed"}, "arch386": []},
                 {"pkg": "internal/plugin", "test": "TestVerifNetnsWildcards", "arch386": []}],
     "rule": "plugin driver: bounded-exhaustive over every sequence with repetition of length <= 3 (quick) / <= 4 (thorough) of a 15-entry "
             "pool covering class (ULA, GUA, link-local, loopback, multicast) x stability source (valid-forever, manage-temporary, "
@@ -23,7 +29,7 @@ SPEC = {
             "up to 12 servers; each accepted (parser-produced) plugin value is applied 2..4 times to an address list and every result must be the option "
             "of the plugin as parsed (the plugin driver applies each plugin twice). Non-trivial = at least two listed addresses / servers "
             "or a failing source; distinct by canonical input.",
-    "nontrivial": lambda c: len(c.get("input", {}).get("addrs") or []) >= 2 or len(c.get("input", {}).get("servers") or []) >= 2
+    "nontrivial": lambda c: _n(c.get("input", {}).get("addrs")) >= 2 or len(c.get("input", {}).get("servers") or []) >= 2
                             or c.get("input", {}).get("source") not in (None, "ok"),
     "trusted": ["net/netip IsPrivate / IsGlobalUnicast / IsLinkLocalUnicast / Less / Compare / As16 are modelled by Model.Wildcard.go_* and Base.IP",
                 "netip.ParseAddr lexes the server strings on the Go side (RSbad / RSnot6 / RS6 a); go-toml decodes the stanza",
